@@ -274,6 +274,12 @@ func (g *Gen) someContext() (string, types.RequestContext, bool) {
 
 // wrongSigner returns some 20-byte account other than a.
 func (g *Gen) wrongSigner(a sdk.AccAddress) sdk.AccAddress {
+	// the rightful party's payee is the most tempting wrong signer
+	if wa, ok := g.r.pre.Withdraw[hexs(a)]; ok && g.rng.Intn(3) == 0 {
+		if x := unhex(wa); len(x) == 20 && !sdk.AccAddress(x).Equals(a) {
+			return sdk.AccAddress(x)
+		}
+	}
 	for {
 		x := g.any20()
 		if !x.Equals(a) {
